@@ -14,6 +14,8 @@ mod entropy;
 mod enumerate;
 mod env;
 mod exec;
+mod ffi;
+mod ffi_run;
 mod fixedmodel;
 mod gen;
 mod host;
@@ -34,6 +36,9 @@ use crate::gen::{Gen, Tier};
 use crate::plan::{Replay, Scenario};
 use crate::runner::*;
 use crate::stats::Stats;
+
+#[global_allocator]
+static ALLOC: ffi::Counting = ffi::Counting;
 
 fn die(msg: &str) -> ! {
     println!("HARNESS-ERROR: {}", msg);
@@ -66,7 +71,7 @@ fn default_runs(s: Scenario, t: Tier) -> u64 {
         (Scenario::LearnedDurability, Tier::Quick) => 3000,
         (Scenario::LearnedDurability, Tier::Thorough) => 40000,
         (Scenario::UserfileFaults, Tier::Quick) => 4000,
-        (Scenario::UserfileFaults, Tier::Thorough) => 2000, // base histories of the enumeration
+        (Scenario::UserfileFaults, Tier::Thorough) => 1500, // base histories of the enumeration
         (Scenario::Reconfigure, Tier::Quick) => 3000,
         (Scenario::Reconfigure, Tier::Thorough) => 40000,
         (Scenario::FixedRules, Tier::Quick) => 6000,
@@ -248,8 +253,12 @@ fn cmd_run(args: &[String]) -> i32 {
 fn cmd_replay(args: &[String]) -> i32 {
     let path = args.get(0).cloned().unwrap_or_else(|| die("replay: file missing"));
     let text = std::fs::read_to_string(&path).unwrap_or_else(|e| die(&format!("{}: {}", path, e)));
-    let rep: Replay = serde_json::from_str(&text).unwrap_or_else(|e| die(&format!("{}: {}", path, e)));
     let env = Env::load().unwrap_or_else(|e| die(&e));
+    if text.contains("\"ffi_lifecycle\"") {
+        let rep: ffi::FReplay = serde_json::from_str(&text).unwrap_or_else(|e| die(&format!("{}: {}", path, e)));
+        return ffi_run::cmd_replay(&env, &path, &rep);
+    }
+    let rep: Replay = serde_json::from_str(&text).unwrap_or_else(|e| die(&format!("{}: {}", path, e)));
     let mut st = Stats::default();
     let (o, log) = execute(&env, &rep.plan, &mut st, exec_opts(rep.plan.scenario, true));
     for l in &log {
@@ -348,6 +357,11 @@ fn main() {
         Some("replay") => cmd_replay(&args[1..]),
         Some("digests") => cmd_digests(&args[1..]),
         Some("show") => cmd_show(&args[1..]),
+        Some("ffi-child") => ffi_run::cmd_child(&args[1..]),
+        Some("ffi") => {
+            let env = Arc::new(Env::load().unwrap_or_else(|e| die(&e)));
+            ffi_run::cmd_run(&env, args.get(1).map(|s| s.as_str()).unwrap_or("quick"), &args[1..])
+        }
         _ => {
             eprintln!("usage: riti-sim run|replay|digests|show ...");
             2
